@@ -1133,3 +1133,724 @@ Proof.
       apply (flags_ok_keep c _ _ (step_instr_keep c rs lang' op b1 v0)). exact Hf0. }
   destruct (parse_args op b1) as [[i b2]|e|n] eqn:Ep; try discriminate; apply Hgo; exact Hr.
 Qed.
+
+(* ================================================================================================ *)
+(* Part C: the engine                                                                                *)
+(* ================================================================================================ *)
+(* ---- Reset(force) computed ---------------------------------------------------------------------------- *)
+Lemma unwind_all : forall fuel st ca, s_path st <> [] -> (List.length (s_path st) <= fuel)%nat ->
+  exists ca', unwind fuel st ca = (set_path_idx st [] 0, ca', SOk).
+Proof.
+  induction fuel as [|f IH]; intros st ca Hp Hl.
+  - destruct (s_path st); [congruence|cbn [List.length] in Hl; lia].
+  - cbn [unwind]. unfold st_top, st_up.
+    destruct (s_path st) as [|a [|b r]] eqn:Ep; [congruence| |].
+    + cbn [removelast]. eexists. reflexivity.
+    + set (st1 := set_path_idx st (removelast (a :: b :: r)) 0).
+      set (ca1 := match cache_pop ca with Ok c0 => c0 | _ => ca end).
+      destruct (IH st1 ca1) as [ca' H].
+      * unfold st1. cbn [s_path set_path_idx removelast]. destruct r; discriminate.
+      * unfold st1. cbn [s_path set_path_idx].
+        pose proof (length_removelast (a :: b :: r) ltac:(discriminate)) as Hlr. cbn [List.length] in *. lia.
+      * exists ca'. rewrite H. reflexivity.
+Qed.
+
+Definition reset_state (st : state) : state :=
+  resetf (resetf (set_path_idx st [] 0) FLAG_TERMINATE) FLAG_DIRTY.
+
+Lemma reset_sc_all : forall s ca, s_path s <> [] -> exists ca', reset_sc s ca = (reset_state s, ca', SOk).
+Proof.
+  intros s ca Hp. unfold reset_sc.
+  destruct (unwind_all (S (List.length (s_path s))) s ca Hp) as [ca' H]; [lia|].
+  rewrite H. exists ca'. reflexivity.
+Qed.
+
+Lemma reset_force_spec : forall c e,
+  exists ca', eng_reset_force c e =
+    match s_path (v_st (e_v e)) with
+    | [] => (e, SOk)
+    | _ => (eset_v e (vset_ca (vset_st (e_v e) (reset_state (set_code (v_st (e_v e)) (encode (IMove (cfg_root c)))))) ca'), SOk)
+    end.
+Proof.
+  intros c e. unfold eng_reset_force.
+  destruct (s_path (v_st (e_v e))) as [|p0 pr] eqn:Ep; [exists (v_ca (e_v e)); reflexivity|].
+  rewrite eng_reset_inner_sc. vcbn.
+  destruct (reset_sc_all (set_code (v_st (e_v e)) (encode (IMove (cfg_root c)))) (v_ca (e_v e))) as [ca' H].
+  { cbn [s_path set_code]. rewrite Ep. discriminate. }
+  rewrite H. exists ca'. destruct e as [[st ca pg w lg t] i x q d]; reflexivity.
+Qed.
+
+(* ---- two idle initialised engines that differ in page, taint and the unexported input ------------------ *)
+Definition eeq (lk : bool) (A B : engine) : Prop :=
+  e_initd A = e_initd B /\ e_exit A = e_exit B /\ e_exiting A = e_exiting B /\ e_execd A = e_execd B
+  /\ veq lk (e_v A) (e_v B).
+
+Definition pre_pg (lk : bool) (st : state) (pa pb : page) : Prop :=
+  if getf st FLAG_WAIT then peq lk (wreset pa) (wreset pb) else peq lk pa pb.
+
+Definition erel (lk : bool) (A B : engine) : Prop :=
+  exists st y ca pa pb w lg ta tb,
+    A = mkEng (mkVm st ca pa w lg ta) true [] false false /\
+    B = mkEng (mkVm (set_input_raw st y) ca pb w lg tb) true [] false false /\
+    pre_pg lk st pa pb.
+
+Definition reset_opt (c : config) (input : bytes) (e : engine) : engine * stat :=
+  if c_reset_empty c && (len input =? 0) then eng_reset_force c e else (e, SOk).
+
+Lemma getf_reset_state : forall st i, i <> FLAG_TERMINATE -> i <> FLAG_DIRTY -> getf (reset_state st) i = getf st i.
+Proof.
+  intros st i H1 H2. unfold reset_state. rewrite getf_resetf_other by exact H2. rewrite getf_resetf_other by exact H1. reflexivity.
+Qed.
+Lemma nth_set_false : forall l n, nth n (set_nth_bit n false l) false = false.
+Proof. induction l as [|x l IH]; intros [|n]; cbn [set_nth_bit nth]; auto. Qed.
+Lemma getf_resetf_self : forall st i, getf (resetf st i) i = false.
+Proof. intros. unfold getf, resetf. cbn [s_flags set_flags]. apply nth_set_false. Qed.
+
+Lemma reset_opt_rel : forall lk c input A B, erel lk A B ->
+  snd (reset_opt c input A) = SOk /\ snd (reset_opt c input B) = SOk
+  /\ erel lk (fst (reset_opt c input A)) (fst (reset_opt c input B)).
+Proof.
+  intros lk c input A B (st & y & ca & pa & pb & w & lg & ta & tb & -> & -> & Hp). unfold reset_opt.
+  destruct (c_reset_empty c && (len input =? 0)).
+  2:{ cbn [fst snd]. split; [reflexivity|]. split; [reflexivity|]. exists st, y, ca, pa, pb, w, lg, ta, tb. auto. }
+  unfold eng_reset_force. vcbn. cbn [e_v v_st s_path set_input_raw].
+  destruct (s_path st) as [|p0 pr] eqn:Ep.
+  { cbn [fst snd]. split; [reflexivity|]. split; [reflexivity|]. exists st, y, ca, pa, pb, w, lg, ta, tb. auto. }
+  rewrite !eng_reset_inner_sc. vcbn.
+  change (set_code (set_input_raw st y) (encode (IMove (cfg_root c))))
+    with (set_input_raw (set_code st (encode (IMove (cfg_root c)))) y).
+  destruct (reset_sc_input (set_code st (encode (IMove (cfg_root c)))) ca y) as [y' Hy]. rewrite Hy.
+  destruct (reset_sc_all (set_code st (encode (IMove (cfg_root c)))) ca) as [ca' H].
+  { cbn [s_path set_code]. rewrite Ep. discriminate. }
+  rewrite H. cbn [fst snd]. split; [reflexivity|]. split; [reflexivity|].
+  eexists _, y', ca', pa, pb, w, lg, ta, tb. split; [reflexivity|]. split; [reflexivity|].
+  unfold pre_pg in *. rewrite getf_reset_state by (unfold FLAG_WAIT, FLAG_TERMINATE, FLAG_DIRTY; lia). exact Hp.
+Qed.
+
+Lemma eeq_mk : forall lk st ca pa pb w lg ta tb i x q d, peq lk pa pb ->
+  eeq lk (mkEng (mkVm st ca pa w lg ta) i x q d) (mkEng (mkVm st ca pb w lg tb) i x q d).
+Proof. intros. unfold eeq. cbn [e_initd e_exit e_exiting e_execd e_v]. repeat (split; [reflexivity|]). apply veq_mk. assumption. Qed.
+
+Definition outcome_rel (lk : bool) (x y : engine * bool * stat) : Prop :=
+  snd (fst x) = snd (fst y) /\ snd x = snd y /\
+  ((e_execd (fst (fst x)) = true /\ snd x = SOk /\ eeq lk (fst (fst x)) (fst (fst y)))
+   \/ (snd (fst x) = false /\ e_execd (fst (fst x)) = false /\ e_execd (fst (fst y)) = false)).
+
+Ltac orel_right := unfold outcome_rel; cbn [fst snd e_execd eset_v]; split; [reflexivity|]; split; [reflexivity|]; right; repeat split.
+
+Lemma exec_inner_sim : forall lk fuel rs c st ca pa pb w lg ta tb,
+  pre_pg lk st pa pb -> getf st FLAG_TERMINATE = false ->
+  outcome_rel lk (eng_exec_inner fuel rs c (mkEng (mkVm st ca pa w lg ta) true [] false false))
+                 (eng_exec_inner fuel rs c (mkEng (mkVm st ca pb w lg tb) true [] false false)).
+Proof.
+  intros lk fuel rs c st ca pa pb w lg ta tb Hp Ht. unfold eng_exec_inner. vcbn. cbn [e_v v_st eset_v].
+  destruct (s_code st) as [|c0 cr] eqn:Ec.
+  { orel_right. }
+  change (s_lang (set_code st [])) with (s_lang st). cbn [e_initd e_exit e_exiting e_execd]. vcbn.
+  destruct fuel as [|f].
+  { cbn [run]. orel_right. }
+  pose proof (run_veq_pre lk f rs (c_sep c) (s_lang st) (c0 :: cr)
+               (mkVm (set_code st []) ca pa w lg ta) (mkVm (set_code st []) ca pb w lg tb)) as Hr.
+  assert (Hpre : veq_pre lk (mkVm (set_code st []) ca pa w lg ta) (mkVm (set_code st []) ca pb w lg tb)).
+  { unfold veq_pre. cbn [v_st v_ca v_pg v_w v_log]. repeat (split; [reflexivity|]). exact Hp. }
+  specialize (Hr Hpre Ht). helim2 Hr.
+  destruct s2 as [|e m|n|]; try solve [orel_right].
+  cbn [v_st].
+  destruct (getf st2 FLAG_TERMINATE).
+  { unfold outcome_rel. cbn [fst snd e_execd]. split; [reflexivity|]. split; [reflexivity|]. left.
+    split; [reflexivity|]. split; [reflexivity|]. apply eeq_mk. exact Hp2. }
+  unfold set_code_eng. cbn [e_v v_st v_ca e_initd e_exit e_exiting e_execd].
+  destruct bb2 as [|b0 br].
+  - change (getf (set_code st2 []) FLAG_DIRTY) with (getf st2 FLAG_DIRTY).
+    destruct (getf st2 FLAG_DIRTY).
+    + destruct (cache_last ca2) as [last ca'] eqn:El. vcbn.
+      unfold outcome_rel. cbn [fst snd e_execd]. split; [reflexivity|]. split; [reflexivity|]. left.
+      split; [reflexivity|]. split; [reflexivity|]. apply eeq_mk. exact Hp2.
+    + unfold outcome_rel. cbn [fst snd e_execd eset_v]. vcbn. split; [reflexivity|]. split; [reflexivity|]. left.
+      split; [reflexivity|]. split; [reflexivity|]. apply eeq_mk. exact Hp2.
+  - unfold outcome_rel. cbn [fst snd e_execd eset_v]. vcbn. split; [reflexivity|]. split; [reflexivity|]. left.
+    split; [reflexivity|]. split; [reflexivity|]. apply eeq_mk. exact Hp2.
+Qed.
+
+Definition term_clear (e : engine) : Prop := getf (v_st (e_v e)) FLAG_TERMINATE = false.
+
+Lemma getf_reset_state_term : forall st, getf (reset_state st) FLAG_TERMINATE = false.
+Proof.
+  intros st. unfold reset_state. rewrite getf_resetf_other by (unfold FLAG_TERMINATE, FLAG_DIRTY; lia).
+  apply getf_resetf_self.
+Qed.
+
+Lemma reset_opt_term : forall c input e, term_clear e -> term_clear (fst (reset_opt c input e)).
+Proof.
+  intros c input e H. unfold reset_opt. destruct (c_reset_empty c && (len input =? 0)); [|exact H].
+  destruct (reset_force_spec c e) as [ca' Hs]. rewrite Hs.
+  destruct (s_path (v_st (e_v e))); [exact H|]. unfold term_clear. cbn [fst]. destruct e as [v i x q d]. cbn [eset_v e_v]. vcbn.
+  apply getf_reset_state_term.
+Qed.
+
+Definition bad_pattern (input : bytes) : bool := (0 <? len input) && negb (valid_input_b input).
+
+Lemma exec_tail_sim : forall lk fuel rs c input A B,
+  erel lk A B -> term_clear A ->
+  let x := exec_tail fuel rs c A input in
+  let y := exec_tail fuel rs c B input in
+  (bad_pattern input = true /\ x = (fst (reset_opt c input A), true, SErr EGen None)
+                            /\ y = (fst (reset_opt c input B), true, SErr EGen None))
+  \/ (bad_pattern input = false /\ outcome_rel lk x y).
+Proof.
+  intros lk fuel rs c input A B Hrel Ht x y. subst x y. unfold exec_tail. fold (reset_opt c input A). fold (reset_opt c input B).
+  destruct (reset_opt_rel lk c input A B Hrel) as [Ha [Hb Hr2]].
+  pose proof (reset_opt_term c input A Ht) as Ht2.
+  destruct (reset_opt c input A) as [A2 sa]. destruct (reset_opt c input B) as [B2 sb]. cbn [fst snd] in *. subst sa sb.
+  fold (bad_pattern input). destruct (bad_pattern input) eqn:Ebad; [left; auto|]. right. split; [reflexivity|].
+  destruct Hr2 as (st & y & ca & pa & pb & w & lg & ta & tb & -> & -> & Hp).
+  unfold term_clear in Ht2. cbn [e_v v_st] in *. unfold set_input. cbn [e_v v_st].
+  destruct (INPUT_LIMIT <? len input).
+  { orel_right. }
+  cbn [eset_v e_v e_initd e_exit e_exiting e_execd]. vcbn.
+  change (set_input_raw (set_input_raw st y) (Some input)) with (set_input_raw st (Some input)).
+  apply exec_inner_sim; [exact Hp|exact Ht2].
+Qed.
+
+Lemma eeq_elim : forall lk A B, eeq lk A B ->
+  exists va vb i x q d, A = mkEng va i x q d /\ B = mkEng vb i x q d /\ veq lk va vb.
+Proof.
+  intros lk [va i x q d] [vb i' x' q' d'] [H1 [H2 [H3 [H4 H5]]]]. cbn in *. subst.
+  exists va, vb, i', x', q', d'. auto.
+Qed.
+
+Lemma reset_inner_veq : forall lk a b, veq lk a b ->
+  snd (eng_reset_inner a) = snd (eng_reset_inner b) /\ veq lk (fst (eng_reset_inner a)) (fst (eng_reset_inner b)).
+Proof.
+  intros lk a b H. velim H. rewrite !eng_reset_inner_sc. vcbn.
+  destruct (reset_sc st ca) as [[st' ca'] s]. cbn [fst snd]. split; [reflexivity|]. apply veq_mk. exact Hp.
+Qed.
+
+Lemma flush_sim : forall fuel rs c A B, eeq false A B ->
+  snd (fst (eng_flush fuel rs c A)) = snd (fst (eng_flush fuel rs c B))
+  /\ snd (eng_flush fuel rs c A) = snd (eng_flush fuel rs c B)
+  /\ eeq false (fst (fst (eng_flush fuel rs c A))) (fst (fst (eng_flush fuel rs c B))).
+Proof.
+  intros fuel rs c A B H. destruct (eeq_elim _ _ _ H) as (va & vb & i & x & q & d & -> & -> & Hv).
+  unfold eng_flush. cbn [e_execd e_v].
+  destruct d; cbn [negb].
+  2:{ cbn [fst snd]. split; [reflexivity|]. split; [reflexivity|]. exact H. }
+  assert (Hst : v_st va = v_st vb) by (destruct Hv as [Hs _]; exact Hs). rewrite <- Hst.
+  destruct (vm_render_veq fuel rs (c_sep c) (s_lang (v_st va)) va vb Hv) as [Hr Hv'].
+  destruct (vm_render fuel rs (c_sep c) (s_lang (v_st va)) va) as [va' r].
+  destruct (vm_render fuel rs (c_sep c) (s_lang (v_st va)) vb) as [vb' r']. cbn [fst snd] in Hr, Hv'. subst r'.
+  cbn [eset_v e_exit e_exiting e_initd e_execd e_v].
+  assert (Hbase : eeq false (mkEng va' i x q true) (mkEng vb' i x q true)).
+  { unfold eeq. cbn [e_initd e_exit e_exiting e_execd e_v]. auto. }
+  destruct (reset_inner_veq false va' vb' Hv') as [Hrs Hrv].
+  assert (Hreset : eeq false (mkEng (fst (eng_reset_inner va')) i x false true) (mkEng (fst (eng_reset_inner vb')) i x false true)).
+  { unfold eeq. cbn [e_initd e_exit e_exiting e_execd e_v]. auto. }
+  destruct (eng_reset_inner va') as [ra sa]. destruct (eng_reset_inner vb') as [rb sb]. cbn [fst snd] in *. subst sb.
+  destruct r as [out|er|n|]; try (cbn [fst snd]; auto).
+  - destruct ((0 <? c_out c) && (0 <? len x) && (c_out c <? w32 (len x + len out))).
+    + destruct q; cbn [fst snd]; auto.
+    + destruct x as [|x0 xr]; (destruct q; [destruct sa|]; cbn [fst snd]; auto).
+  - destruct ((0 <? c_out c) && (0 <? len x) && (c_out c <? w32 (len x + 0))).
+    + destruct q; cbn [fst snd]; auto.
+    + destruct x as [|x0 xr]; [cbn [fst snd]; auto|]. destruct q; [destruct sa|]; cbn [fst snd]; auto.
+Qed.
+
+(* ---- the long-lived side: what holds between two requests --------------------------------------------- *)
+Definition Linv (c : config) (e : engine) : Prop :=
+  e_initd e = true /\ e_exit e = [] /\ e_exiting e = false
+  /\ s_code (v_st (e_v e)) <> [] /\ getf (v_st (e_v e)) FLAG_DIRTY = false
+  /\ getf (v_st (e_v e)) FLAG_TERMINATE = false /\ flags_ok (v_st (e_v e))
+  /\ pg_ok c (v_pg (e_v e))
+  /\ (getf (v_st (e_v e)) FLAG_WAIT = false -> peq false (v_pg (e_v e)) (P0 c)).
+
+Lemma Linv_cleared : forall c e, Linv c e -> Linv c (cleared e).
+Proof. intros c e (H1 & H2 & H3 & H4). unfold Linv, cleared. cbn [e_initd e_exit e_exiting e_v]. auto. Qed.
+
+Lemma Linv_delivered : forall c e, Linv c e -> delivered e.
+Proof. intros c e (H1 & H2 & H3 & H4 & H5 & _). right. auto. Qed.
+
+Lemma flags_ok_reset_state : forall st, flags_ok st -> flags_ok (reset_state st).
+Proof.
+  intros st H. unfold flags_ok, reset_state in *.
+  destruct (st_keep_resetf (resetf (set_path_idx st [] 0) FLAG_TERMINATE) FLAG_DIRTY) as [_ H1].
+  destruct (st_keep_resetf (set_path_idx st [] 0) FLAG_TERMINATE) as [_ H2].
+  rewrite H1, H2. exact H.
+Qed.
+
+Lemma reset_opt_Linv : forall c input e, Linv c e -> Linv c (fst (reset_opt c input e)).
+Proof.
+  intros c input e H. unfold reset_opt. destruct (c_reset_empty c && (len input =? 0)); [|exact H].
+  destruct (reset_force_spec c e) as [ca' Hs]. rewrite Hs.
+  destruct (s_path (v_st (e_v e))); [exact H|]. cbn [fst].
+  destruct H as (H1 & H2 & H3 & H4 & H5 & H6 & H7 & H8 & H9).
+  destruct e as [[st ca pg w lg t] i x q d]. cbn [e_initd e_exit e_exiting e_v v_st v_pg] in *.
+  unfold Linv. cbn [eset_v e_initd e_exit e_exiting e_v]. vcbn.
+  repeat (split; [assumption|]).
+  split; [cbn [reset_state]; unfold reset_state; cbn [s_code resetf set_flags set_path_idx set_code]; apply encode_nonempty|].
+  split; [apply getf_resetf_self|].
+  split; [apply getf_reset_state_term|].
+  split; [apply flags_ok_reset_state; exact H7|].
+  split; [exact H8|].
+  rewrite getf_reset_state by (unfold FLAG_WAIT, FLAG_TERMINATE, FLAG_DIRTY; lia). exact H9.
+Qed.
+
+(* Exec returned "continue" without error: the run stopped at a HALT with code pending *)
+Lemma exec_inner_cont : forall fuel rs c v A' s,
+  eng_exec_inner fuel rs c (mkEng v true [] false false) = (A', true, s) ->
+  flags_ok (v_st v) -> pg_ok c (v_pg v) ->
+  s = SOk /\ e_initd A' = true /\ e_exit A' = [] /\ e_exiting A' = false /\ e_execd A' = true
+  /\ s_code (v_st (e_v A')) <> [] /\ getf (v_st (e_v A')) FLAG_TERMINATE = false
+  /\ flags_ok (v_st (e_v A')) /\ pg_ok c (v_pg (e_v A')) /\ getf (v_st (e_v A')) FLAG_WAIT = true.
+Proof.
+  intros fuel rs c v A' s H Hf Hpg. unfold eng_exec_inner in H. cbn [e_v eset_v e_initd e_exit e_exiting e_execd] in H.
+  destruct (s_code (v_st v)) as [|c0 cr] eqn:Ec; [discriminate|].
+  set (v0 := vset_st v (set_code (v_st v) [])) in H.
+  assert (Hf0 : flags_ok (v_st v0)) by (destruct v; exact Hf).
+  assert (Hpg0 : pg_ok c (v_pg v0)) by (destruct v; exact Hpg).
+  pose proof (run_keep c fuel rs (s_lang (v_st v0)) (c0 :: cr) v0) as Hk.
+  pose proof (run_stops_at_halt c fuel rs (s_lang (v_st v0)) (c0 :: cr) v0) as Hw.
+  destruct (run fuel rs (c_sep c) (s_lang (v_st v0)) (c0 :: cr) v0) as [[v1 b] s1]. cbn [fst] in Hk.
+  destruct s1; try discriminate.
+  destruct (getf (v_st v1) FLAG_TERMINATE) eqn:Et; [discriminate|].
+  unfold set_code_eng in H. cbn [e_v e_initd e_exit e_exiting e_execd] in H.
+  destruct b as [|b0 br].
+  { destruct (getf (set_code (v_st v1) []) FLAG_DIRTY); [destruct (cache_last (v_ca v1))|]; discriminate. }
+  injection H as <- <-. cbn [eset_v e_initd e_exit e_exiting e_execd e_v]. destruct v1 as [st1 ca1 pg1 w1 lg1 t1]. vcbn.
+  cbn [v_st v_pg] in *.
+  split; [reflexivity|]. repeat (split; [reflexivity|]).
+  split; [cbn [s_code set_code]; discriminate|].
+  split; [exact Et|].
+  split; [exact (flags_ok_keep c _ _ Hk Hf0)|].
+  split; [destruct Hk as [_ Hk2]; exact (Hk2 Hpg0)|].
+  exact (Hw _ _ Hf0 eq_refl ltac:(discriminate)).
+Qed.
+
+(* ---- the render of a Flush raised a BrowseError (the page index is past the last page) ------------------ *)
+Definition browse_err (rs : rsrc) (e : engine) : bool :=
+  let v := e_v e in
+  let st := v_st v in
+  e_execd e && getf st FLAG_DIRTY &&
+  match where_sym st with
+  | [] => false
+  | sym =>
+    match fst (page_render (v_ca v) (rs_tpl rs (s_lang st)) (rs_menu rs (s_lang st)) (v_pg v) sym (s_idx st)) with
+    | Err EBrowse => true
+    | _ => false
+    end
+  end.
+
+(* without a BrowseError Vm.Render only clears DIRTY, renders the page and logs the render *)
+Lemma vm_render_plain : forall c fuel rs v,
+  browse_err rs (mkEng v true [] false true) = false ->
+  let v' := fst (vm_render fuel rs (c_sep c) (s_lang (v_st v)) v) in
+  st_keep (v_st v) (v_st v')
+  /\ (forall i, i <> FLAG_DIRTY -> getf (v_st v') i = getf (v_st v) i)
+  /\ getf (v_st v') FLAG_DIRTY = false
+  /\ (pg_ok c (v_pg v) -> pg_ok c (v_pg v')).
+Proof.
+  intros c fuel rs [st ca pg w lg t] Hb. unfold browse_err in Hb. cbn [e_execd e_v v_st v_ca v_pg andb] in Hb.
+  unfold vm_render. vcbn.
+  destruct (getf st FLAG_DIRTY) eqn:Ed; cbn [negb].
+  2:{ cbn [fst v_st v_pg]. split; [apply st_keep_refl|]. auto. }
+  change (where_sym (resetf st FLAG_DIRTY)) with (where_sym st).
+  change (s_idx (resetf st FLAG_DIRTY)) with (s_idx st).
+  assert (Hst : st_keep st (resetf st FLAG_DIRTY) /\ (forall i, i <> FLAG_DIRTY -> getf (resetf st FLAG_DIRTY) i = getf st i)
+                /\ getf (resetf st FLAG_DIRTY) FLAG_DIRTY = false).
+  { split; [apply st_keep_resetf|]. split; [intros; apply getf_resetf_other; assumption|apply getf_resetf_self]. }
+  destruct Hst as (K1 & K2 & K3).
+  destruct (where_sym st) as [|x r] eqn:Ew.
+  { cbn [fst v_st v_pg]. auto. }
+  pose proof (pshape_render ca (rs_tpl rs (s_lang st)) (rs_menu rs (s_lang st)) pg (x :: r) (s_idx st)) as Hsh.
+  destruct (page_render ca (rs_tpl rs (s_lang st)) (rs_menu rs (s_lang st)) pg (x :: r) (s_idx st)) as [rr pg'].
+  cbn [fst snd] in *.
+  assert (Hgo : forall r0 : rres,
+     st_keep st (v_st (fst (mkVm (resetf st FLAG_DIRTY) ca pg' w (EvRender (x :: r) (s_idx st) (s_lang st) :: lg) t, r0)))
+     /\ (forall i, i <> FLAG_DIRTY -> getf (v_st (fst (mkVm (resetf st FLAG_DIRTY) ca pg' w (EvRender (x :: r) (s_idx st) (s_lang st) :: lg) t, r0))) i = getf st i)
+     /\ getf (v_st (fst (mkVm (resetf st FLAG_DIRTY) ca pg' w (EvRender (x :: r) (s_idx st) (s_lang st) :: lg) t, r0))) FLAG_DIRTY = false
+     /\ (pg_ok c pg -> pg_ok c (v_pg (fst (mkVm (resetf st FLAG_DIRTY) ca pg' w (EvRender (x :: r) (s_idx st) (s_lang st) :: lg) t, r0))))).
+  { intros r0. cbn [fst v_st v_pg]. repeat (split; [assumption|]). unfold pg_ok. rewrite Hsh. auto. }
+  destruct rr as [out|e|n]; try apply Hgo.
+  destruct e; try apply Hgo. discriminate.
+Qed.
+
+(* Flush of an engine that has executed, has no exit value and is not exiting *)
+Lemma flush_running : forall fuel rs c v,
+  eng_flush fuel rs c (mkEng v true [] false true) =
+  let '(v', r) := vm_render fuel rs (c_sep c) (s_lang (v_st v)) v in
+  (mkEng v' true [] false true,
+   match r with RROk out => out ++ [] | _ => [] end,
+   match r with RROk _ => FOk | RRErr er => FErr er | RRPanic n => FPanic n | RRFuel => FFuel end).
+Proof.
+  intros fuel rs c v. unfold eng_flush. cbn [e_execd negb e_v].
+  destruct (vm_render fuel rs (c_sep c) (s_lang (v_st v)) v) as [v' r].
+  cbn [eset_v e_exit e_exiting e_initd e_execd e_v].
+  change (len (@nil N)) with 0. rewrite N.ltb_irrefl, andb_false_r. cbn [andb].
+  destruct r; reflexivity.
+Qed.
+
+Lemma reset_opt_execd : forall c input e, e_execd (fst (reset_opt c input e)) = e_execd e.
+Proof.
+  intros c input e. unfold reset_opt. destruct (c_reset_empty c && (len input =? 0)); [|reflexivity].
+  destruct (reset_force_spec c e) as [ca' Hs]. rewrite Hs. destruct (s_path (v_st (e_v e))); destruct e; reflexivity.
+Qed.
+Lemma reset_opt_ok : forall c input e, snd (reset_opt c input e) = SOk.
+Proof.
+  intros c input e. unfold reset_opt. destruct (c_reset_empty c && (len input =? 0)); [|reflexivity].
+  destruct (reset_force_spec c e) as [ca' Hs]. rewrite Hs. destruct (s_path (v_st (e_v e))); reflexivity.
+Qed.
+
+Definition ran_ok (c : config) (A' : engine) : Prop :=
+  e_initd A' = true /\ e_exit A' = [] /\ e_exiting A' = false /\ e_execd A' = true
+  /\ s_code (v_st (e_v A')) <> [] /\ getf (v_st (e_v A')) FLAG_TERMINATE = false
+  /\ flags_ok (v_st (e_v A')) /\ pg_ok c (v_pg (e_v A')) /\ getf (v_st (e_v A')) FLAG_WAIT = true.
+
+Lemma exec_tail_cont : forall fuel rs c A input A',
+  Linv c A -> e_execd A = false ->
+  exec_tail fuel rs c A input = (A', true, SOk) -> ran_ok c A'.
+Proof.
+  intros fuel rs c A input A' HL Hx H. unfold exec_tail in H. fold (reset_opt c input A) in H.
+  pose proof (reset_opt_Linv c input A HL) as HL2. pose proof (reset_opt_execd c input A) as Hx2.
+  pose proof (reset_opt_ok c input A) as Hs2. rewrite Hx in Hx2.
+  destruct (reset_opt c input A) as [A2 s2]. cbn [fst snd] in *. subst s2.
+  destruct ((0 <? len input) && negb (valid_input_b input)); [discriminate|].
+  unfold set_input in H. destruct (INPUT_LIMIT <? len input); [discriminate|].
+  destruct HL2 as (H1 & H2 & H3 & H4 & H5 & H6 & H7 & H8 & H9).
+  destruct A2 as [[st ca pg w lg t] i x q d]. cbn [e_initd e_exit e_exiting e_execd e_v v_st v_pg] in *. subst.
+  cbn [eset_v e_initd e_exit e_exiting e_execd e_v] in H. vcbn.
+  unfold vset_st in H. cbn [v_st v_ca v_pg v_w v_log v_taint] in H.
+  destruct (exec_inner_cont fuel rs c _ _ _ H) as (_ & K); [exact H7|exact H8|exact K].
+Qed.
+
+(* after the Flush that follows, if the render raised no BrowseError *)
+Lemma flush_ran_Linv : forall fuel rs c A',
+  ran_ok c A' -> browse_err rs A' = false ->
+  Linv c (fst (fst (eng_flush fuel rs c A'))).
+Proof.
+  intros fuel rs c A' (H1 & H2 & H3 & H4 & H5 & H6 & H7 & H8 & H9) Hb.
+  destruct A' as [v i x q d]. cbn [e_initd e_exit e_exiting e_execd e_v] in *. subst.
+  rewrite flush_running.
+  pose proof (vm_render_plain c fuel rs v Hb) as Hp.
+  destruct (vm_render fuel rs (c_sep c) (s_lang (v_st v)) v) as [v' r]. cbn [fst] in *.
+  destruct Hp as ([K1 K2] & K3 & K4 & K5).
+  unfold Linv. cbn [e_initd e_exit e_exiting e_v].
+  repeat (split; [reflexivity|]).
+  split; [rewrite K1; exact H5|].
+  split; [exact K4|].
+  split; [rewrite K3 by (unfold FLAG_TERMINATE, FLAG_DIRTY; lia); exact H6|].
+  split; [unfold flags_ok in *; lia|].
+  split; [exact (K5 H8)|].
+  rewrite K3 by (unfold FLAG_WAIT, FLAG_DIRTY; lia). congruence.
+Qed.
+
+(* ---- relating the leftover page of the long-lived engine to the page of a new engine --------------------- *)
+Definition scrubp (pg : page) : page := upd_menu scrub_menu pg.
+Definition bro (pg : page) : option (browse * bool * bool) :=
+  option_map (fun m => (m_browse m, m_can_next m, m_can_prev m)) (p_menu pg).
+
+Lemma peq_false_true : forall a b, peq false a b -> peq true a b.
+Proof.
+  intros a b H. destruct (peq_inv false a b H) as [H1 [H2 [H3 [H4 [H5 H6]]]]].
+  apply peq_intro; try assumption.
+  destruct (p_menu a) as [ma|], (p_menu b) as [mb|]; cbn [option_map mnorm] in *; congruence.
+Qed.
+
+Lemma menu_eta : forall a b,
+  m_items a = m_items b -> m_browse a = m_browse b -> m_page_count a = m_page_count b -> m_can_next a = m_can_next b ->
+  m_can_prev a = m_can_prev b -> m_sink a = m_sink b -> m_keep a = m_keep b -> m_sep a = m_sep b -> m_has_rs a = m_has_rs b -> a = b.
+Proof. intros [] []; cbn; intros; subst; reflexivity. Qed.
+
+Lemma peq_true_bro : forall a b, peq true a b -> bro a = bro b -> peq false a b.
+Proof.
+  intros a b H Hb. destruct (peq_inv true a b H) as [H1 [H2 [H3 [H4 [H5 H6]]]]].
+  apply peq_intro; try assumption. unfold bro in Hb.
+  destruct (p_menu a) as [ma|], (p_menu b) as [mb|]; cbn [option_map mnorm] in *; try discriminate; [|reflexivity].
+  assert (Hs : scrub_menu ma = scrub_menu mb) by congruence.
+  destruct (mnorm_inv_true ma mb Hs) as (K1 & K2 & K3 & K4 & K5 & K6).
+  assert (Hb1 : m_browse ma = m_browse mb) by congruence.
+  assert (Hb2 : m_can_next ma = m_can_next mb) by congruence.
+  assert (Hb3 : m_can_prev ma = m_can_prev mb) by congruence.
+  f_equal. apply menu_eta; assumption.
+Qed.
+
+Lemma peq_false_bro : forall a b, peq false a b -> bro a = bro b.
+Proof.
+  intros a b H. destruct (peq_inv false a b H) as [_ [_ [H3 _]]]. unfold bro.
+  destruct (p_menu a) as [ma|], (p_menu b) as [mb|]; cbn [option_map mnorm] in *; congruence.
+Qed.
+
+Lemma wreset_shape_true : forall a b, pshape a = pshape b -> peq true (wreset a) (wreset b).
+Proof.
+  intros a b H. unfold pshape in H. injection H as Hm Hz.
+  unfold wreset, upd_menu, page_reset, page_with_error. cbn [p_map p_sink p_menu p_sizer p_err p_extra].
+  apply peq_intro.
+  - destruct (p_menu a), (p_menu b); reflexivity.
+  - destruct (p_menu a), (p_menu b); reflexivity.
+  - destruct (p_menu a) as [ma|], (p_menu b) as [mb|]; cbn [option_map] in *; try discriminate; [|reflexivity].
+    cbn [p_menu option_map mnorm]. f_equal. injection Hm as Hs Hr.
+    unfold scrub_menu, menu_reset, menu_reset_flags, set_can.
+    cbn [m_items m_browse m_page_count m_can_next m_can_prev m_sink m_keep m_sep m_has_rs]. congruence.
+  - destruct (p_menu a) as [ma|], (p_menu b) as [mb|]; cbn [option_map] in *; try discriminate;
+      cbn [p_sizer];
+      (destruct (p_sizer a) as [za|], (p_sizer b) as [zb|]; cbn [option_map] in *; try discriminate; [|reflexivity];
+       injection Hz as Hz; unfold znorm, sizer_reset; cbn [z_out z_crsrs z_sink]; congruence).
+  - destruct (p_menu a), (p_menu b); reflexivity.
+  - destruct (p_menu a), (p_menu b); reflexivity.
+Qed.
+
+Lemma scrubp_peq : forall a b, peq false a b -> peq false (scrubp a) (scrubp b).
+Proof.
+  intros a b H. destruct (peq_inv false a b H) as [H1 [H2 [H3 [H4 [H5 H6]]]]].
+  unfold scrubp, upd_menu.
+  destruct (p_menu a) as [ma|] eqn:Ea, (p_menu b) as [mb|] eqn:Eb; cbn [option_map mnorm] in H3; try discriminate; [|exact H].
+  apply peq_intro; cbn [p_map p_sink p_menu p_sizer p_err p_extra option_map mnorm]; congruence.
+Qed.
+
+Lemma scrubp_P0 : forall c, scrubp (P0 c) = P0 c.
+Proof. intros c. unfold P0, new_vm_page. destruct (c_sep c); destruct (0 <? c_out c); reflexivity. Qed.
+
+Lemma wreset_scrub_shape : forall a b, pshape a = pshape b -> peq false (wreset (scrubp a)) (wreset (scrubp b)).
+Proof.
+  intros a b H. apply peq_true_bro.
+  - apply wreset_shape_true. unfold scrubp. rewrite !pshape_upd_menu by (intros m; reflexivity). exact H.
+  - unfold pshape in H. injection H as Hm _. unfold bro, wreset, scrubp, upd_menu.
+    destruct (p_menu a) as [ma|] eqn:Ea, (p_menu b) as [mb|] eqn:Eb; cbn [option_map] in Hm; try discriminate;
+      unfold page_reset, page_with_error; cbn [p_map p_sink p_menu p_sizer p_err p_extra option_map]; rewrite ?Ea, ?Eb;
+      cbn [p_map p_sink p_menu p_sizer p_err p_extra option_map]; reflexivity.
+Qed.
+
+(* ---- guards (decidable) --------------------------------------------------------------------------------- *)
+Definition browse_eqb (a b : browse) : bool :=
+  Bool.eqb (b_next_avail a) (b_next_avail b) && bytes_eqb (b_next_sel a) (b_next_sel b)
+  && bytes_eqb (b_next_title a) (b_next_title b) && Bool.eqb (b_prev_avail a) (b_prev_avail b)
+  && bytes_eqb (b_prev_sel a) (b_prev_sel b) && bytes_eqb (b_prev_title a) (b_prev_title b).
+Definition bro_eqb (x y : option (browse * bool * bool)) : bool :=
+  match x, y with
+  | None, None => true
+  | Some (a, n, p), Some (a', n', p') => browse_eqb a a' && Bool.eqb n n' && Bool.eqb p p'
+  | _, _ => false
+  end.
+Lemma browse_eqb_eq : forall a b, browse_eqb a b = true -> a = b.
+Proof.
+  intros [a1 a2 a3 a4 a5 a6] [b1 b2 b3 b4 b5 b6] H. unfold browse_eqb in H. cbn in H.
+  repeat (apply andb_true_iff in H; destruct H as [H ?]).
+  repeat match goal with
+         | K : Bool.eqb _ _ = true |- _ => apply Bool.eqb_prop in K
+         | K : bytes_eqb _ _ = true |- _ => apply bytes_eqb_eq in K
+         end. subst. reflexivity.
+Qed.
+Lemma bro_eqb_eq : forall x y, bro_eqb x y = true -> x = y.
+Proof.
+  intros [[[a n] p]|] [[[a' n'] p']|] H; unfold bro_eqb in H; try discriminate; [|reflexivity].
+  apply andb_true_iff in H as [H Hp]. apply andb_true_iff in H as [H Hn].
+  apply browse_eqb_eq in H. apply Bool.eqb_prop in Hp. apply Bool.eqb_prop in Hn. subst. reflexivity.
+Qed.
+
+(* an over-long input that also fails the input pattern (K-C07-longbad) *)
+Definition input_ok_b (i : bytes) : bool := negb ((INPUT_LIMIT <? len i) && negb (valid_input_b i)).
+(* the long-lived engine with the leftover browse configuration of its menu wiped *)
+Definition scrub (e : engine) : engine := eset_v e (vset_pg (e_v e) (scrubp (v_pg (e_v e)))).
+(* the browse configuration the request's execution ends with does not depend on the one left over from
+   the previous request (K-C07-browse) *)
+Definition no_browse_leak_b (fuel : nat) (rs : rsrc) (c : config) (e : engine) (i : bytes) : bool :=
+  let e1 := fst (fst (eng_exec fuel rs c e i)) in
+  if e_execd e1
+  then bro_eqb (bro (v_pg (e_v e1))) (bro (v_pg (e_v (fst (fst (eng_exec fuel rs c (scrub e) i))))))
+  else true.
+(* the render of the request's Flush raised no BrowseError *)
+Definition no_browse_err_b (fuel : nat) (rs : rsrc) (c : config) (e : engine) (i : bytes) : bool :=
+  negb (browse_err rs (fst (fst (eng_exec fuel rs c e i)))).
+
+(* ---- the simulation relation ----------------------------------------------------------------------------- *)
+Definition R (c : config) (e : engine) (p : pworld) : Prop :=
+  Linv c e /\ pw_store p = Some (snap_of (v_st (e_v e)) (v_ca (e_v e)))
+  /\ pw_w p = v_w (e_v e) /\ pw_log p = v_log (e_v e).
+
+Lemma eng_exec_Linv : forall fuel rs c e i, Linv c e ->
+  eng_exec fuel rs c e i = exec_tail fuel rs c (cleared e) i.
+Proof.
+  intros fuel rs c e i H. pose proof (Linv_delivered c e H) as Hd.
+  rewrite eng_exec_initd; [|destruct H as [H _]; exact H|apply delivered_settled; exact Hd].
+  rewrite delivered_not_stuck by exact Hd. reflexivity.
+Qed.
+
+Lemma Linv_scrub : forall c e, Linv c e -> Linv c (scrub e).
+Proof.
+  intros c [[st ca pg w lg t] i x q d] (H1 & H2 & H3 & H4 & H5 & H6 & H7 & H8 & H9).
+  unfold Linv, scrub in *. cbn [eset_v e_initd e_exit e_exiting e_v] in *. vcbn. cbn [v_st v_pg] in *.
+  repeat (split; [assumption|]). split.
+  - unfold pg_ok, scrubp in *. rewrite pshape_upd_menu by (intros m; reflexivity). exact H8.
+  - intros Hw. rewrite <- (scrubp_P0 c). apply scrubp_peq. exact (H9 Hw).
+Qed.
+
+Lemma request_persisted_R : forall fuel rs c p i st ca,
+  c_first c = None -> pw_store p = Some (snap_of st ca) -> s_code st <> [] ->
+  request_persisted fuel rs c p i =
+  pers_finish fuel rs c p (pw_store p)
+    (if INPUT_LIMIT <? len i
+     then (mkEng (mkVm (set_input_raw st None) ca (P0 c) (pw_w p) (pw_log p) false) false [] false false, false, SErr EGen None)
+     else exec_tail fuel rs c (mkEng (mkVm (set_input_raw st None) ca (P0 c) (pw_w p) (pw_log p) false) true [] false false) i).
+Proof.
+  intros fuel rs c p i st ca Hf Hs Hc.
+  rewrite request_persisted_finish, new_engine_sess, eng_exec_fresh by exact Hf.
+  rewrite Hs. cbn [store0_of sess fst snd snap_of].
+  rewrite init_sc_nonempty by (cbn [s_code set_input_raw]; exact Hc). reflexivity.
+Qed.
+
+(* ---- three engines: long-lived (A), long-lived with the browse configuration wiped (S), new (B) ------------ *)
+Lemma eeq_true_false : forall A B, eeq true A B -> bro (v_pg (e_v A)) = bro (v_pg (e_v B)) -> eeq false A B.
+Proof.
+  intros A B (H1 & H2 & H3 & H4 & H5) Hb. unfold eeq. repeat (split; [assumption|]).
+  destruct H5 as (K1 & K2 & K3 & K4 & K5). unfold veq. repeat (split; [assumption|]).
+  apply peq_true_bro; assumption.
+Qed.
+Lemma eeq_false_bro : forall A B, eeq false A B -> bro (v_pg (e_v A)) = bro (v_pg (e_v B)).
+Proof. intros A B (_ & _ & _ & _ & (_ & _ & _ & _ & K)). apply peq_false_bro. exact K. Qed.
+
+Lemma three_way : forall fuel rs c input A S B,
+  erel true A B -> erel false S B -> term_clear A -> term_clear S ->
+  (e_execd (fst (fst (exec_tail fuel rs c A input))) = true ->
+   bro (v_pg (e_v (fst (fst (exec_tail fuel rs c A input))))) = bro (v_pg (e_v (fst (fst (exec_tail fuel rs c S input)))))) ->
+  let x := exec_tail fuel rs c A input in
+  let y := exec_tail fuel rs c B input in
+  (bad_pattern input = true /\ x = (fst (reset_opt c input A), true, SErr EGen None)
+                            /\ y = (fst (reset_opt c input B), true, SErr EGen None))
+  \/ (bad_pattern input = false /\ outcome_rel false x y).
+Proof.
+  intros fuel rs c input A S B Hab Hsb Hta Hts Hg x y. subst x y.
+  destruct (exec_tail_sim true fuel rs c input A B Hab Hta) as [Hbad|[Hnb Hr1]]; [left; exact Hbad|].
+  destruct (exec_tail_sim false fuel rs c input S B Hsb Hts) as [[Hbad _]|[_ Hr2]]; [congruence|].
+  right. split; [exact Hnb|].
+  destruct Hr1 as (C1 & C2 & [(X1 & X2 & X3)|(X1 & X2 & X3)]).
+  - destruct Hr2 as (D1 & D2 & [(Y1 & Y2 & Y3)|(Y1 & Y2 & Y3)]).
+    + unfold outcome_rel. split; [exact C1|]. split; [exact C2|]. left. split; [exact X1|]. split; [exact X2|].
+      apply eeq_true_false; [exact X3|]. rewrite (Hg X1). apply eeq_false_bro. exact Y3.
+    + destruct X3 as (_ & _ & _ & X3 & _). congruence.
+  - unfold outcome_rel. split; [exact C1|]. split; [exact C2|]. right. auto.
+Qed.
+
+Definition long_finish (fuel : nat) (rs : rsrc) (c : config) (x : engine * bool * stat) : engine * response :=
+  let '(e1, cont, s) := x in
+  match s with
+  | SPanic n => (e1, mkResp cont s [] (FPanic n))
+  | SFuel => (e1, mkResp cont s [] FFuel)
+  | _ => let '(e2, out, f) := eng_flush fuel rs c e1 in (e2, mkResp cont s out f)
+  end.
+Lemma request_long_finish : forall fuel rs c e i,
+  request_long fuel rs c e i = long_finish fuel rs c (eng_exec fuel rs c e i).
+Proof. reflexivity. Qed.
+
+Definition flush_alive (f : fstat) : Prop := match f with FPanic _ | FFuel => False | _ => True end.
+
+Lemma finish_sim : forall fuel rs c p o x y,
+  outcome_rel false x y ->
+  let '(eL, rl) := long_finish fuel rs c x in
+  let '(p', rp) := pers_finish fuel rs c p o y in
+  rl = rp /\
+  (r_cont rl = true -> flush_alive (r_flush rl) -> e_initd eL = true ->
+   pw_store p' = Some (snap_of (v_st (e_v eL)) (v_ca (e_v eL))) /\ pw_w p' = v_w (e_v eL) /\ pw_log p' = v_log (e_v eL)
+   /\ eL = fst (fst (eng_flush fuel rs c (fst (fst x)))) /\ e_execd (fst (fst x)) = true /\ snd x = SOk).
+Proof.
+  intros fuel rs c p o [[A' ca] sa] [[B' cb] sb] (C1 & C2 & Hc). cbn [fst snd] in *. subst cb sb.
+  unfold long_finish, pers_finish.
+  destruct Hc as [(X1 & X2 & X3)|(X1 & X2 & X3)].
+  - subst sa.
+    destruct (flush_sim fuel rs c A' B' X3) as (F1 & F2 & F3).
+    destruct (eng_flush fuel rs c A') as [[A2 oa] fa]. destruct (eng_flush fuel rs c B') as [[B2 ob] fb].
+    cbn [fst snd] in *. subst ob fb.
+    destruct F3 as (G1 & G2 & G3 & G4 & (K1 & K2 & K3 & K4 & K5)).
+    destruct fa; (split; [reflexivity|]); cbn [r_cont r_flush flush_alive]; intros Hc Ha Hi; try contradiction;
+      unfold eng_finish; rewrite <- G1, Hi; cbn [pw_store pw_w pw_log]; rewrite K1, K2, K3, K4; auto 10.
+  - subst ca.
+    destruct sa; try (split; [reflexivity|]; cbn [r_cont]; intros; discriminate).
+    + rewrite !flush_before_exec by assumption. cbn [eng_finish]. split; [reflexivity|]. cbn [r_cont]. intros; discriminate.
+    + rewrite !flush_before_exec by assumption. cbn [eng_finish]. split; [reflexivity|]. cbn [r_cont]. intros; discriminate.
+Qed.
+
+(* ---- one request --------------------------------------------------------------------------------------- *)
+Lemma erel_of_R : forall c e st ca pg w lg t,
+  Linv c e -> e_v e = mkVm st ca pg w lg t ->
+  erel true (cleared e) (mkEng (mkVm (set_input_raw st None) ca (P0 c) w lg false) true [] false false)
+  /\ erel false (cleared (scrub e)) (mkEng (mkVm (set_input_raw st None) ca (P0 c) w lg false) true [] false false).
+Proof.
+  intros c e st ca pg w lg t (H1 & H2 & H3 & H4 & H5 & H6 & H7 & H8 & H9) Hv.
+  destruct e as [v i x q d]. cbn [e_v e_initd e_exit e_exiting] in *. subst. cbn [v_st v_pg] in *.
+  split.
+  - exists st, None, ca, pg, (P0 c), w, lg, t, false. split; [reflexivity|]. split; [reflexivity|].
+    unfold pre_pg. destruct (getf st FLAG_WAIT); [apply wreset_shape_true; exact H8|apply peq_false_true; auto].
+  - exists st, None, ca, (scrubp pg), (P0 c), w, lg, t, false. split; [reflexivity|]. split; [reflexivity|].
+    unfold pre_pg. destruct (getf st FLAG_WAIT).
+    + rewrite <- (scrubp_P0 c). apply wreset_scrub_shape. exact H8.
+    + rewrite <- (scrubp_P0 c). apply scrubp_peq. auto.
+Qed.
+
+Lemma step_simulation : forall fuel rs c e p i,
+  c_first c = None -> R c e p -> input_ok_b i = true -> no_browse_leak_b fuel rs c e i = true ->
+  let '(e', rl) := request_long fuel rs c e i in
+  let '(p', rp) := request_persisted fuel rs c p i in
+  rl = rp /\
+  (r_cont rl = true -> flush_alive (r_flush rl) -> no_browse_err_b fuel rs c e i = true -> R c e' p').
+Proof.
+  intros fuel rs c e p i Hf (HL & Hst & Hw & Hlg) Hin Hleak.
+  pose proof (Linv_scrub c e HL) as HLs.
+  unfold no_browse_leak_b, no_browse_err_b. unfold no_browse_leak_b in Hleak.
+  rewrite request_long_finish. rewrite (eng_exec_Linv fuel rs c e i HL) in *.
+  rewrite (eng_exec_Linv fuel rs c (scrub e) i HLs) in Hleak.
+  destruct (e_v e) as [st ca pg w lg t] eqn:Ev.
+  assert (Hcode : s_code st <> []).
+  { destruct HL as (_ & _ & _ & H4 & _). rewrite Ev in H4. exact H4. }
+  cbn [v_st v_ca v_w v_log] in Hst, Hw, Hlg.
+  rewrite (request_persisted_R fuel rs c p i st ca Hf Hst Hcode). rewrite Hw, Hlg.
+  destruct (INPUT_LIMIT <? len i) eqn:Elim.
+  { (* over-long: refused on both sides *)
+    assert (Hv : valid_input_b i = true).
+    { unfold input_ok_b in Hin. rewrite Elim in Hin. cbn [andb] in Hin. destruct (valid_input_b i); [reflexivity|discriminate]. }
+    rewrite exec_tail_refused by (left; apply N.ltb_lt; exact Elim). rewrite Hv. cbn [negb].
+    unfold long_finish, pers_finish. rewrite !flush_before_exec by reflexivity.
+    split; [reflexivity|]. cbn [r_cont]. intros; discriminate. }
+  destruct (erel_of_R c e st ca pg w lg t HL Ev) as [Hab Hsb].
+  set (B := mkEng (mkVm (set_input_raw st None) ca (P0 c) w lg false) true [] false false) in *.
+  assert (Hta : term_clear (cleared e)).
+  { destruct HL as (_ & _ & _ & _ & _ & H6 & _). exact H6. }
+  assert (Hts : term_clear (cleared (scrub e))).
+  { destruct HLs as (_ & _ & _ & _ & _ & H6 & _). exact H6. }
+  assert (Hg : e_execd (fst (fst (exec_tail fuel rs c (cleared e) i))) = true ->
+     bro (v_pg (e_v (fst (fst (exec_tail fuel rs c (cleared e) i)))))
+     = bro (v_pg (e_v (fst (fst (exec_tail fuel rs c (cleared (scrub e)) i)))))).
+  { intros Hx. rewrite Hx in Hleak. apply bro_eqb_eq. exact Hleak. }
+  destruct (three_way fuel rs c i (cleared e) (cleared (scrub e)) B Hab Hsb Hta Hts Hg) as [(Hbad & Hx & Hy)|(Hnb & Hrel)].
+  - (* refused by the pattern: nothing ran *)
+    rewrite Hx, Hy.
+    destruct (reset_opt_rel true c i (cleared e) B Hab) as (_ & _ & Hr2).
+    pose proof (reset_opt_Linv c i (cleared e) (Linv_cleared c e HL)) as HL2.
+    destruct Hr2 as (st2 & y2 & ca2 & pa2 & pb2 & w2 & lg2 & ta2 & tb2 & Ea & Eb & Hp2).
+    rewrite Ea in *. rewrite Eb.
+    unfold long_finish, pers_finish. rewrite !flush_before_exec by reflexivity.
+    split; [reflexivity|]. intros _ _ _.
+    unfold R. split; [exact HL2|]. cbn [eng_finish e_initd e_v v_st v_ca v_w v_log pw_store pw_w pw_log].
+    split; [|auto]. unfold snap_of. reflexivity.
+  - pose proof (finish_sim fuel rs c p (pw_store p) _ _ Hrel) as Hfin.
+    destruct (long_finish fuel rs c (exec_tail fuel rs c (cleared e) i)) as [eL rl] eqn:EL.
+    destruct (pers_finish fuel rs c p (pw_store p) (exec_tail fuel rs c B i)) as [p' rp] eqn:EP.
+    destruct Hfin as [Hresp Hstore]. split; [exact Hresp|].
+    intros Hc Ha Hb.
+    (* the long-lived engine after the request *)
+    destruct (exec_tail fuel rs c (cleared e) i) as [[A' ca'] sa] eqn:EA. cbn [fst snd] in *.
+    assert (Hcont : ca' = r_cont rl).
+    { unfold long_finish in EL. destruct sa; [destruct (eng_flush fuel rs c A') as [[? ?] ?]|destruct (eng_flush fuel rs c A') as [[? ?] ?]| |];
+        injection EL as _ <-; reflexivity. }
+    assert (Hinit : e_initd eL = true -> R c eL p').
+    { intros Hi. destruct (Hstore Hc Ha Hi) as (S1 & S2 & S3 & S4 & S5 & S6). subst sa. rewrite Hc in Hcont. subst ca'.
+      pose proof (exec_tail_cont fuel rs c (cleared e) i A' (Linv_cleared c e HL) eq_refl EA) as Hran.
+      unfold R. split; [|auto]. rewrite S4. apply flush_ran_Linv; [exact Hran|].
+      apply negb_true_iff in Hb. exact Hb. }
+    apply Hinit.
+    (* initd: from the shape of the outcome *)
+    destruct Hrel as (_ & _ & [(X1 & X2 & X3)|(X1 & _)]).
+    + cbn [fst snd] in *. subst sa. rewrite Hc in Hcont. subst ca'.
+      pose proof (exec_tail_cont fuel rs c (cleared e) i A' (Linv_cleared c e HL) eq_refl EA) as Hran.
+      unfold long_finish in EL.
+      pose proof (flush_ran_Linv fuel rs c A' Hran ltac:(apply negb_true_iff in Hb; exact Hb)) as HLf.
+      destruct (eng_flush fuel rs c A') as [[A2 oa] fa]. cbn [fst] in HLf. injection EL as <- _.
+      destruct HLf as [HLf _]. exact HLf.
+    + cbn [fst snd] in X1. congruence.
+Qed.
